@@ -360,7 +360,7 @@ func c11GenProgram(t *rapid.T) c11Program {
 	n := rapid.IntRange(2, 14).Draw(t, "nsteps")
 
 	cursor := rapid.IntRange(1, 3).Draw(t, "startHeight") // generator-side bias only: the height "consensus" is working on
-	current := -1                                           // proposal most recently handed to Process
+	current := -1                                         // proposal most recently handed to Process
 
 	clampH := func(h int) int {
 		if h < 1 {
